@@ -472,13 +472,16 @@ def gen_header(g):
     return cases
 
 
-def load_corpus():
+def load_corpus(prop="C04"):
+    """corpus/<prop>/*.case: harness lines; the token nv:<n> stands for the hex of n nested variants around a byte"""
     out = []
-    for f in sorted(glob.glob(os.path.join(vlib.VERIF, "corpus", "C04", "*.case"))):
+    for f in sorted(glob.glob(os.path.join(vlib.VERIF, "corpus", prop, "*.case"))):
         for l in open(f):
             l = l.strip()
             if l and not l.startswith("#"):
-                inlen = len(l.split(" ")[-1]) // 2
+                toks = [hx(nested_variants(int(t[3:]))) if t.startswith("nv:") else t for t in l.split(" ")]
+                l = " ".join(toks)
+                inlen = len(toks[-1]) // 2
                 out.append(Case("corpus", l, inlen))
     return out
 
@@ -497,6 +500,7 @@ def evaluate(ctx, cases, builds, drv, param_size, prop="C04"):
             mres[i] = next(it)
     all_res = {}
     seen_known = False
+    found = []
     for build, exe in builds:
         results = run_impl(exe, [c.line for c in cases])
         all_res[build] = results
@@ -517,9 +521,7 @@ def evaluate(ctx, cases, builds, drv, param_size, prop="C04"):
                 continue
             if why:
                 ctx.disagreements_checked += 1
-                ctx.violation(why, {"line": c.line if len(c.line) < 4000 else c.line[:4000] + "...", "full_line_len": len(c.line),
-                                    "build": build, "result": res.raw, "kind": c.kind, "note": c.note,
-                                    "regen": None if len(c.line) < 4000 else "too long to store: regenerate with the seed and tier of this file"})
+                found.append((severity(res), why, violation_data(c, res, build)))
                 continue
             m = mres.get(i)
             if m is not None:
@@ -532,7 +534,24 @@ def evaluate(ctx, cases, builds, drv, param_size, prop="C04"):
                     ctx.disagreements_checked += 1
                     ctx.tie_broken("correspondence: decoder model and implementation disagree on acceptance or length",
                                    "%s\nimpl[%s]: %s\nmodel: %s" % (c.line[:400], build, res.raw, m[:100]))
+    report(ctx, found)
     return all_res
+
+
+def severity(res):
+    """crashes first, then resource excess, then wrong verdicts (only the first few violations are written out)"""
+    return 0 if res.status in CRASH else (2 if res.status in ("ok", "err") else 1)
+
+
+def violation_data(c, res, build):
+    return {"line": c.line if len(c.line) < 4000 else c.line[:4000] + "...", "full_line_len": len(c.line),
+            "build": build, "result": res.raw, "kind": c.kind, "note": c.note,
+            "regen": None if len(c.line) < 4000 else "too long to store: regenerate with the seed and tier of this file"}
+
+
+def report(ctx, found):
+    for _, why, data in sorted(found, key=lambda f: (f[0], len(f[2]["line"]))):
+        ctx.violation(why, data)
 
 
 def build_model():
